@@ -467,6 +467,8 @@ def check_c02(prog, rep, tier, cfg):
     # C02.n — a conditional directive ends where its expression ends (shared with C13.f): cut at the first `}` of a nested comment or literal,
     # its tail is scanned and formatted as code (breaks and blanks inside the directive, `AND` lower-cased, a stray quote absorbing code)
     _lx.c13f(prog, _Alias(rep, [("C13.f", r".", "C02.n")]))
+    # C02.o — a character string is one token: a run of `#` character codes ends only where no `#` follows (shared with C13.k)
+    _lx.c13k(prog, rep, "C02.o")
     # C02.m — what the user re-scans is the file pasfmt wrote: the formatted text reaches it through the encoder of the file's encoding
     # only (one byte per character after a UTF-16 BOM re-scans to other tokens altogether).  Shared with C17.c.
     import orch as _orch
